@@ -1,6 +1,7 @@
 package main
 
 import (
+	"strconv"
 	"strings"
 
 	jwt "github.com/nats-io/jwt/v2"
@@ -238,6 +239,46 @@ func runC16(c *Ctx) {
 		} else {
 			one(s, o, false, false, false)
 			c.count("random_malformed")
+		}
+	}
+	// the subject a renaming subject stands for (what the overlap rules compare): a token that is a reference - a dollar sign
+	// followed by an integer, nothing else - reads as the wildcard *, every other token stays as written; so a subject
+	// without reference tokens has no more wildcards than it spells
+	{
+		toks := []string{"a", "req", "*", ">", "$1", "$12", "$", "$$1", "$$", "$x", "$1x", "x$1", "$-1", "$+1", "$01", "$$$12", "$ 1", "$1$"}
+		isRef := func(tk string) bool {
+			if len(tk) < 2 || tk[0] != '$' {
+				return false
+			}
+			_, err := strconv.Atoi(tk[1:])
+			return err == nil
+		}
+		for _, a := range toks {
+			for _, b := range append([]string{""}, toks...) {
+				for _, cc := range append([]string{""}, toks[:6]...) {
+					var in, want []string
+					for _, tk := range []string{a, b, cc} {
+						if tk == "" {
+							continue
+						}
+						in = append(in, tk)
+						if isRef(tk) {
+							want = append(want, "*")
+						} else {
+							want = append(want, tk)
+						}
+					}
+					rs := jwt.RenamingSubject(strings.Join(in, "."))
+					got := string(rs.ToSubject())
+					c.sum.Evaluations++
+					c.sum.ImplChecks++
+					if got != strings.Join(want, ".") {
+						c.violation("RenamingSubject.ToSubject: a token that is no reference was rewritten (or a reference was not)",
+							map[string]interface{}{"renaming_subject": string(rs), "impl": got, "spec": strings.Join(want, ".")})
+					}
+					c.count("renaming_to_subject")
+				}
+			}
 		}
 	}
 	w.flush()
